@@ -5,9 +5,12 @@ patch="$(realpath "$1")"; shift
 cd /verif
 if ! git -C /repo diff --quiet; then echo "repo dirty, abort"; exit 2; fi
 git -C /repo apply "$patch" || { echo "patch does not apply"; exit 2; }
+# evidence files must only ever come from runs on the unchanged tree: keep them aside
+rm -rf /verif/.evidence_keep && cp -r /verif/evidence /verif/.evidence_keep
 for p in "$@"; do
   out=$(./check "$p" quick 2>&1); rc=$?
   echo "[$p] rc=$rc  $(echo "$out" | grep -E '^VIOLATION|^KNOWN' | cut -c1-200 | head -3 | tr '\n' '|')"
   echo "$out" | grep "problem:" | head -3 | cut -c1-300
 done
 git -C /repo checkout -- .
+rm -rf /verif/evidence && mv /verif/.evidence_keep /verif/evidence
